@@ -8,8 +8,7 @@ from props.c04 import TRUST
 
 
 def run(ses):
-    for unit in ("image10s", "image11s"):
-        records.check_unit(ses, unit, ["table", "frame"])
+    records.check_units(ses, ("image10s", "image11s"), ["table", "frame"])
     from props import analyses
 
     analyses.bounded_tables(ses, ('image10s', 'image11s'), 12 if ses.tier == "quick" else 300)
